@@ -486,3 +486,139 @@ Section Multi.
   Definition send_to_parent (s : St) (parent : option nat) : St * res :=
     match parent with None => (s, ROk) | Some q => snd s q end.
 End Multi.
+
+(* ---- network/local.go under back-pressure -------------------------------------------------------
+
+   One direction of an in-memory connection towards a peer whose reader does not keep up:
+     LocalManager.send  : lm.Lock; lookup; incomingQueue <- msg (blocks when full, LOCK HELD); unlock
+     LocalConn.start    : for { select { case b := <-incomingQueue: outgoingQueue <- b (blocks when full)
+                                         case <-closeCh: close queues; closeConfirm <- true; return } }
+     LocalManager.close : lm.Lock; delete entry; close(closeCh); <-closeConfirm (LOCK HELD); unlock
+     LocalConn.Receive  : <-outgoingQueue (the router's handleConn; it stops reading when the router
+                          closes or while its dispatcher is busy)
+   Both queues hold LocalMaxBuffer = 200 packets. [fix_n3]: send waits for room without the manager's
+   lock and watches closeCh; the forwarding goroutine watches closeCh while it pushes. *)
+
+Inductive fpc := FSelect | FHold | FGone.   (* forwarder: at its select / holding a packet, pushing / returned *)
+Inductive cpc := CIdle | CWait | CDone.     (* closer: not started / in lm.close waiting for closeConfirm, lock held / returned *)
+
+Record lconn := mkL {
+  lcap : nat; inq : nat; outq : nat; fwd : fpc; closer : cpc;
+  closesig : bool;                          (* closeCh closed, entry deleted *)
+  lock_s : bool;                            (* a sender sits in lm.send with the manager's lock, waiting for room *)
+  reading : bool }.                         (* the reader still calls Receive *)
+
+Definition linit (cap : nat) : lconn := mkL cap 0 0 FSelect CIdle false false true.
+
+Definition lock_free (s : lconn) : bool :=
+  negb (lock_s s) && match closer s with CWait => false | _ => true end.
+
+Inductive laction :=
+| LSend          (* the survivor calls Send on this connection *)
+| LSendRoom      (* the sender blocked in lm.send finds room *)
+| LFwdTake | LFwdPush | LFwdClose
+| LRead | LReaderStop
+| LCloseBegin | LCloseEnd
+| LOther.        (* any other connection of the same manager is used (needs the manager's lock) *)
+
+Definition lstep (fix_n3 : bool) (s : lconn) (a : laction) : option lconn :=
+  let upd_q i o := mkL (lcap s) i o (fwd s) (closer s) (closesig s) (lock_s s) (reading s) in
+  match a with
+  | LSend =>
+      if fix_n3 then
+        if closesig s then Some s                                    (* ErrClosed *)
+        else if inq s <? lcap s then Some (upd_q (S (inq s)) (outq s))
+        else None                                                    (* waits, without any lock *)
+      else
+        if lock_free s then
+          if closesig s then Some s
+          else if inq s <? lcap s then Some (upd_q (S (inq s)) (outq s))
+          else Some (mkL (lcap s) (inq s) (outq s) (fwd s) (closer s) (closesig s) true (reading s))
+        else None
+  | LSendRoom =>
+      if lock_s s && (inq s <? lcap s)
+      then Some (mkL (lcap s) (S (inq s)) (outq s) (fwd s) (closer s) (closesig s) false (reading s))
+      else None
+  | LFwdTake =>
+      match fwd s, inq s with
+      | FSelect, S i => Some (mkL (lcap s) i (outq s) FHold (closer s) (closesig s) (lock_s s) (reading s))
+      | _, _ => None
+      end
+  | LFwdPush =>
+      match fwd s with
+      | FHold => if outq s <? lcap s
+                 then Some (mkL (lcap s) (inq s) (S (outq s)) FSelect (closer s) (closesig s) (lock_s s) (reading s))
+                 else None
+      | _ => None
+      end
+  | LFwdClose =>
+      if closesig s then
+        match fwd s with
+        | FSelect => Some (mkL (lcap s) (inq s) (outq s) FGone (closer s) true (lock_s s) (reading s))
+        | FHold => if fix_n3 then Some (mkL (lcap s) (inq s) (outq s) FGone (closer s) true (lock_s s) (reading s))
+                   else None
+        | FGone => None
+        end
+      else None
+  | LRead =>
+      match reading s, outq s with
+      | true, S o => Some (upd_q (inq s) o)
+      | _, _ => None
+      end
+  | LReaderStop => if reading s then Some (mkL (lcap s) (inq s) (outq s) (fwd s) (closer s) (closesig s) (lock_s s) false) else None
+  | LCloseBegin =>
+      match closer s with
+      | CIdle => if lock_free s
+                 then Some (mkL (lcap s) (inq s) (outq s) (fwd s) CWait true (lock_s s) (reading s))
+                 else None
+      | _ => None
+      end
+  | LCloseEnd =>
+      match closer s, fwd s with
+      | CWait, FGone => Some (mkL (lcap s) (inq s) (outq s) (fwd s) CDone (closesig s) (lock_s s) (reading s))
+      | _, _ => None
+      end
+  | LOther => if lock_free s then Some s else None
+  end.
+
+Fixpoint lrun (fx : bool) (s : lconn) (acts : list laction) : option lconn :=
+  match acts with
+  | [] => Some s
+  | a :: r => match lstep fx s a with None => None | Some s' => lrun fx s' r end
+  end.
+
+(* the forwarder, the blocked sender and the closer run as far as they can *)
+Fixpoint lsettle (fx : bool) (fuel : nat) (s : lconn) : lconn :=
+  match fuel with
+  | 0 => s
+  | S f =>
+      let try a k := match lstep fx s a with Some s' => lsettle fx f s' | None => k end in
+      try LFwdPush (try LFwdTake (try LSendRoom (try LFwdClose (try LCloseEnd s))))
+  end.
+
+(* k messages are sent while the reader took the first one and then stopped; returns the state and
+   whether every Send returned *)
+Fixpoint lflood (fx : bool) (k : nat) (s : lconn) : lconn * bool :=
+  match k with
+  | 0 => (s, true)
+  | S k' => match lstep fx s LSend with
+            | Some s' => lflood fx k' (lsettle fx 4 s')
+            | None => (s, false)
+            end
+  end.
+
+(* (Stop closed its connections, every Send returned, a later Send returns, the manager is usable) *)
+Definition flood_outcome (fx : bool) (cap k : nat) : bool * bool * bool * bool :=
+  match k with
+  | 0 => (true, true, true, true)
+  | S k' =>
+      let s0 := lsettle fx 4 (match lstep fx (linit cap) LSend with Some s => s | None => linit cap end) in
+      let s1 := match lstep fx s0 LRead with Some s => s | None => s0 end in
+      let s2 := match lstep fx s1 LReaderStop with Some s => s | None => s1 end in
+      let (s3, all_sent) := lflood fx k' s2 in
+      let s4 := match lstep fx s3 LCloseBegin with Some s => lsettle fx 6 s | None => s3 end in
+      let closed_ok := match closer s4 with CDone => true | _ => false end in
+      (* with the repair a Send that waits for room is woken by the close and returns an error *)
+      let sends_ok := negb (lock_s s4) && (all_sent || (fx && closed_ok)) in
+      (closed_ok, sends_ok, lock_free s4, lock_free s4)
+  end.
